@@ -34,6 +34,11 @@ def make_measure(I, kind, R, Dd, name="u"):
         return build.measure(I, R, Dd, name, warm=True)
     if kind == "diag":
         return build.measure(I, R, Dd, name, cls="GaussianDiagMeasure", diag=True)
+    if kind == "diagwarm":
+        # history context: a diagonal measure whose caches were populated by its own integration preparation
+        o = build.measure(I, R, Dd, name, cls="GaussianDiagMeasure", diag=True)
+        I.call_method(o, "_prepare_integration", [])
+        return o
     if kind == "pdf":
         return build.pdf(I, R, Dd, name)
     if kind == "diagpdf":
